@@ -56,7 +56,10 @@ class ObjMixin:
             return RepoMod(x)
         if isinstance(x, ExtRef):
             if x.dotted.startswith("ast.") and hasattr(ast, x.dotted[4:]):
-                return AstCls(getattr(ast, x.dotted[4:]))
+                obj = getattr(ast, x.dotted[4:])
+                if isinstance(obj, type) and issubclass(obj, ast.AST):
+                    return AstCls(obj)
+                return Ext(x.dotted)
             return Ext(x.dotted)
         if isinstance(x, type) and issubclass(x, ast.AST):
             return AstCls(x)
